@@ -3,7 +3,7 @@
    Model: Model/GC.v (collect() call by call); normalize_path / marker fallback / constants are
    REGENERATED from garbage_collector.py and transaction.py (Gen/GenNorm.v) on every run. *)
 From Coq Require Import ZArith String Ascii List Bool.
-Require Import DS.Model.PyStr DS.Gen.GenNorm DS.Model.GC DS.Proofs.GCNormProofs DS.Proofs.GCProofs DS.Proofs.GCLiveProofs.
+Require Import DS.Model.PyStr DS.Gen.GenNorm DS.Model.GC DS.Model.GCHist DS.Proofs.GCNormProofs DS.Proofs.GCProofs DS.Proofs.GCLiveProofs DS.Proofs.GCHistProofs.
 Import ListNotations.
 Open Scope string_scope.
 Open Scope Z_scope.
@@ -44,6 +44,16 @@ Theorem C05_no_abort : forall (tp : string) (grace now timeout : Z) (snaps : lis
 Proof. exact gc_no_abort. Qed.
 Print Assumptions C05_no_abort.
 
+(* After ANY sequential history -- commits (append / multi-operation / delete_files with any path spelling), expiries,
+   snapshot deletions, open transactions, planted orphans, arbitrary file ages, and collections with any table location,
+   grace period, clock, abandonment timeout and ANY fault oracle -- the store is in writer form and every retained
+   snapshot is fully present: its manifest list, every manifest in it, every data file they name.  No bound on length. *)
+Theorem C05_history : forall ops : list hop,
+  let h := run_hist ops in
+  wf_store (h_lists h) (h_store h) /\ forall l, In l (h_lists h) -> snapshot_present (h_store h) l.
+Proof. exact history_invariant. Qed.
+Print Assumptions C05_history.
+
 (* Non-vacuity: a table located at "data" (the location that made the unrepaired normalisation delete
    every live file) with two retained snapshots sharing a manifest, an orphan data file, an orphan
    manifest, a file younger than the grace period and a live transaction's file: well-formed, the run
@@ -77,3 +87,20 @@ Proof.
   - exists "metadata/inflight/tx.parquet.inflight", (mkObj 999000 (CMarker (Some "data/tx.parquet"))).
     repeat split; try reflexivity. vm_compute. discriminate.
 Qed.
+
+(* Non-vacuity of C05_history: two commits (the second carries the first manifest over and spells its entry "data/b"),
+   an open transaction, an orphan, deletion of the first snapshot, then a grace-1000 collection at location "data":
+   snapshot 2 is retained and fully present; the orphan and the dropped snapshot's manifest list are gone; the open
+   transaction's file survives. *)
+Definition ex_ops : list hop := [
+  HCommit 1 [("a", 1000)] [("m1", ["/data/a"], 1000)] [] "l1" 1000 None;
+  HCommit 2 [("b", 1000)] [("m2", ["data/b"], 1000)] ["metadata/manifests/m1"] "l2" 1000 None;
+  HOpenTx "t" 1000 999000;
+  HPlant "data/orphan" false 1000;
+  HDeleteSnapshot 1;
+  HCollect "data" 1000 1000000 86400000 no_faults ].
+Example C05_history_nonvacuous :
+  h_snaps (run_hist ex_ops) = [(2, "metadata/manifests/l2")]
+  /\ map fst (h_store (run_hist ex_ops)) =
+       ["metadata/inflight/t.inflight"; "data/t"; "data/b"; "metadata/manifests/m2"; "metadata/manifests/l2"; "data/a"; "metadata/manifests/m1"].
+Proof. split; vm_compute; reflexivity. Qed.
